@@ -14,8 +14,15 @@ import (
 
 var vZeroBlock = make([]byte, 4096)
 
-// vW is "an arbitrary valid file system": a symbolic logical disk with an empty (fully installed)
-// log and a live root directory, on which the real MakeNfs has been run.
+// vW is "an arbitrary valid file system": a symbolic logical disk with an empty (fully installed) log
+// and a live root directory, on which the real MakeNfs has been run. Validity is the representation
+// invariant Inv of DESIGN.md §4, assumed instance by instance through call hooks.
+//
+// Addresses. With parameter symaddr=0 (default) block and inode *numbers* take representative concrete
+// values (bound R_addr): slot i of inode x points to 0 or block 2048+32*(x mod 128)+i, the k-th
+// allocation returns 0 or block 7000+k / inode 39+32k, directory slot s names 0 or inode 96+((5s+2) mod
+// 32); contents (every inode field, which pointers are zero, all data bytes, all directory entries) stay
+// symbolic. With symaddr=1 the numbers are symbolic too, constrained by I2/I3 only.
 type vW struct {
 	nfs *Nfs
 	d   *verifrt.Disk
@@ -24,11 +31,12 @@ type vW struct {
 	dirSlots uint64
 	lnkMax   uint64
 	cmp      uint64
-	// seen pointer locations for I3 instantiation
-	ptrBlk []uint64
-	ptrOff []uint64
-	ptrVal []uint64
-	allocd []uint64
+	symaddr  bool
+	// pointers / allocations seen on this path (I3 instantiation)
+	ptrVal   []uint64
+	allocd   []uint64
+	nballoc  uint64
+	nialloc  uint64
 	dirsDone []*inode.Inode
 }
 
@@ -45,14 +53,45 @@ func vWorldOn(d *verifrt.Disk) *vW {
 		verifrt.Assume(h0[i] == h1[i])
 	}
 	verifrt.Assume(h0[2] == 0 && h0[3] == 0 && h0[4] == 0 && h0[5] == 0 && h0[6] == 0 && h0[7] == 0 && h0[1] < 16)
-	w := &vW{d: d, dirSlots: verifrt.Param("dirslots", 3), lnkMax: verifrt.Param("lnkmax", 8), cmp: verifrt.Param("namecmp", 2)}
-	s := super.MkFsSuper(d)
-	w.sup = s
-	// I1/I6: inode 1 is a live directory (so MakeNfs does not format)
+	w := &vW{d: d, dirSlots: verifrt.Param("dirslots", 3), lnkMax: verifrt.Param("lnkmax", 8), cmp: verifrt.Param("namecmp", 2),
+		symaddr: verifrt.Param("symaddr", 0) == 1}
+	w.sup = super.MkFsSuper(d)
 	w.hooks()
 	w.nfs = MakeNfs(d)
+	if !w.symaddr {
+		verifrt.AllocRep(w.nfs.fsstate.Balloc, 7000, 1)
+		verifrt.AllocRep(w.nfs.fsstate.Ialloc, 39, 32)
+	}
 	return w
 }
+
+// vOffset returns a file offset. Default: block index from the boundary representatives of the block
+// map (direct / indirect / double-indirect edges, last addressable block, first block beyond) combined
+// with a boundary in-block offset; or (class "far") any offset beyond the addressable range, up to 2^64-1.
+func vOffset(name string) uint64 {
+	var bi uint64
+	switch verifrt.Param("offsets", 1) {
+	case 1:
+		bi = verifrt.Choose(name+"_blk", 0, 8, 520, 262663, 262664, 1<<62)
+	default:
+		bi = verifrt.Choose(name+"_blk", 0, 1, 7, 8, 9, 519, 520, 521, 1031, 1032, 262663, 262664, 1<<62)
+	}
+	if bi == 1<<62 {
+		off := verifrt.U64(name + "_far")
+		verifrt.Assume(off/4096 > 262664)
+		return off
+	}
+	var bo uint64
+	if verifrt.Param("offsets", 1) == 1 {
+		bo = verifrt.Choose(name+"_byte", 0, 4095)
+	} else {
+		bo = verifrt.Choose(name+"_byte", 0, 1, 4094, 4095)
+	}
+	return bi*4096 + bo
+}
+
+func vBlockOf(x, i uint64) uint64 { return 2048 + 32*(x%128) + i }
+func vChildOf(s uint64) uint64    { return 96 + (5*s+2)%32 }
 
 // hooks installs the Inv instantiation points.
 func (w *vW) hooks() {
@@ -65,13 +104,22 @@ func (w *vW) hooks() {
 		if ip.Inum == 0 {
 			verifrt.Assume(ip.Kind == inode.NF3FREE)
 		}
-		for i := 0; i < 10; i++ {
+		for i := uint64(0); i < 10; i++ {
 			p := ip.VerifBlks()[i]
+			if !w.symaddr {
+				c := vBlockOf(ip.Inum, i)
+				verifrt.Assume(p == 0 || p == c)
+				continue
+			}
 			w.assumeMarked(p)
-			// redundant lemma (I2 + allocator contract): blocks handed out earlier in this request were
-			// free, hence differ from every pointer of the pre-state
+			// lemma (I2 + allocator contract): blocks handed out earlier in this request were free,
+			// hence differ from every pointer of the pre-state
 			for _, n := range w.allocd {
 				verifrt.Assume(p == 0 || p != n)
+			}
+			// I3: two pointer locations hold different blocks
+			for _, q := range w.ptrVal {
+				verifrt.Assume(p == 0 || p != q)
 			}
 			w.ptrVal = append(w.ptrVal, p)
 		}
@@ -92,26 +140,33 @@ func (w *vW) hooks() {
 	}
 	// allocator results (contract + Inv): a free block number lies in the data region (mkfs marks every
 	// other block, C15), is all-zero (I7) and unreferenced (I2/I3: referenced blocks are marked); a free
-	// inode number lies in [2, NInode) and names a free inode (I5). Bound R_slot: the in-block slot of an
-	// allocated inode is the representative 7.
+	// inode number lies in [2, NInode) and names a free inode (I5).
 	verifrt.OnReturn("(*github.com/mit-pdos/go-journal/alloc.Alloc).AllocNum", func(a *alloc.Alloc, n uint64) {
 		if w.nfs == nil {
 			return
 		}
 		if a == w.nfs.fsstate.Balloc {
-			verifrt.Assume(n == 0 || (n >= ds && n < mx))
-			for _, p := range w.ptrVal {
-				verifrt.Assume(n == 0 || n != p)
+			if w.symaddr {
+				verifrt.Assume(n == 0 || (n >= ds && n < mx))
+				for _, p := range w.ptrVal {
+					verifrt.Assume(n == 0 || n != p)
+				}
+				for _, m := range w.allocd {
+					verifrt.Assume(n == 0 || n != m)
+				}
+				w.allocd = append(w.allocd, n)
+			} else {
+				w.nballoc++
 			}
-			for _, m := range w.allocd {
-				verifrt.Assume(n == 0 || n != m)
-			}
-			w.allocd = append(w.allocd, n)
 			if verifrt.Param("zeroalloc", 1) == 1 {
 				verifrt.Assume(n == 0 || verifrt.BytesEq(w.d.Peek(n), vZeroBlock))
 			}
 		} else {
-			verifrt.Assume(n == 0 || (n >= 2 && n < uint64(w.sup.NInode()) && n%32 == 7))
+			if w.symaddr {
+				verifrt.Assume(n == 0 || (n >= 2 && n < uint64(w.sup.NInode()) && n%32 == 7))
+			} else {
+				w.nialloc++
+			}
 			if n != 0 {
 				ip := w.vInodeAt(n)
 				verifrt.Assume(ip.Kind == inode.NF3FREE)
@@ -121,7 +176,16 @@ func (w *vW) hooks() {
 	// I2 for the entries of indirect blocks
 	verifrt.OnReturn("(*github.com/mit-pdos/go-journal/buf.Buf).BnumGet", func(p uint64) {
 		verifrt.Assume(p == 0 || (p >= ds && p < mx))
-		w.assumeMarked(p)
+		if w.symaddr {
+			w.assumeMarked(p)
+			for _, q := range w.ptrVal {
+				verifrt.Assume(p == 0 || p != q)
+			}
+		} else {
+			// representative range for indirect entries: disjoint from inode slots (2048..6143) and from
+			// fresh allocations (7000..); entries are symbolic within it
+			verifrt.Assume(p == 0 || (p >= 7500 && p < mx))
+		}
 	})
 }
 
@@ -132,8 +196,19 @@ func (w *vW) vInodeAt(x uint64) *inode.Inode {
 	return inode.Decode(buf.MkBufLoad(a, common.INODESZ*8, blk), x)
 }
 
-// vInum returns a symbolic inode number 32*q + r with r a representative in-block slot.
+// vInum returns an inode number. symaddr=0: a representative concrete number (root, low, high, in
+// different in-block slots); symaddr=1: 32*q + r with q symbolic and r a representative in-block slot.
 func (w *vW) vInum(name string) uint64 {
+	if !w.symaddr {
+		switch verifrt.Param("inums", 2) {
+		case 1:
+			return verifrt.Choose(name+"_x", 193)
+		case 2:
+			return verifrt.Choose(name+"_x", 193, 1)
+		default:
+			return verifrt.Choose(name+"_x", 193, 1, 32767, 64, 2)
+		}
+	}
 	q := uint64(verifrt.U32(name + "_q"))
 	verifrt.Assume(q < 1024)
 	var r uint64
@@ -160,22 +235,8 @@ func (w *vW) vLive(name string, kind nfstypes.Ftype3) (nfstypes.Nfs_fh3, uint64)
 	return fh.Fh{Ino: x, Gen: ip.Gen}.MakeFh3(), x
 }
 
-// vAnyFh is a handle of 0..64 arbitrary bytes.
-func vAnyFh(name string) nfstypes.Nfs_fh3 {
-	n := verifrt.U64(name + "_len")
-	verifrt.Assume(n <= 64)
-	return nfstypes.Nfs_fh3{Data: verifrt.Bytes(name, n)}
-}
-
-// vFh16 is an arbitrary well-sized handle whose inode number has a representative in-block slot.
-func (w *vW) vFh16(name string) nfstypes.Nfs_fh3 {
-	x := w.vInum(name)
-	g := verifrt.U64(name + "_gen")
-	return fh.Fh{Ino: x, Gen: g}.MakeFh3()
-}
-
 // vName is a file name of a representative length (all boundary lengths of the name-length checks)
-// whose first w.cmp bytes are arbitrary.
+// whose first w.cmp bytes are arbitrary and whose other bytes are 'x'.
 func (w *vW) vName(name string) nfstypes.Filename3 {
 	var n uint64
 	if verifrt.Param("longnames", 0) == 1 {
@@ -186,10 +247,9 @@ func (w *vW) vName(name string) nfstypes.Filename3 {
 	return nfstypes.Filename3(verifrt.Name(name, n, w.cmp))
 }
 
-// assumeDir instantiates I6 for a just-decoded inode under the guard g = "it is a directory": its single
-// data block is present and well-formed, every named child is a live inode, and (bound R_slot) the
-// in-block inode slot of the child named in directory slot s is the representative (5*s+2) mod 32.
-// Everything is stated as implications so that no path is forked here.
+// assumeDir instantiates I6 for an inode used as a directory, under the guard g = "it is one": its
+// single data block is present and well-formed and every named child is a live inode. Everything is
+// stated as implications so that no path is forked here.
 func (w *vW) assumeDir(ip *inode.Inode, g bool) {
 	b0 := ip.VerifBlks()[0]
 	verifrt.Assume(!g || b0 != 0)
@@ -197,7 +257,15 @@ func (w *vW) assumeDir(ip *inode.Inode, g bool) {
 	dir.VerifAssumeDirBlock(g, blk, w.dirSlots, ip.Inum, uint64(w.sup.NInode()), w.cmp+1)
 	for s := uint64(1); s < w.dirSlots; s++ {
 		c, _ := dir.VerifSlot(blk, s)
-		verifrt.Assume(!g || c == 0 || c%32 == (5*s+2)%32 || (s == 1 && c == ip.Inum))
+		if w.symaddr {
+			verifrt.Assume(!g || c == 0 || c%32 == (5*s+2)%32 || (s == 1 && c == ip.Inum))
+		} else if s == 1 {
+			cs := vChildOf(s)
+			verifrt.Assume(!g || c == ip.Inum || c == 1 || c == cs)
+		} else {
+			cs := vChildOf(s)
+			verifrt.Assume(!g || c == 0 || c == cs)
+		}
 		// child liveness (I6): Kind != 0, read straight from the inode table
 		a := w.sup.Inum2Addr(c % 32768)
 		ib := w.d.Peek(a.Blkno)
